@@ -44,11 +44,12 @@ class BanditStep(Case):
                    "mask entries 0/1 with at least one legal arm")
     outside = ("that the deposited features equal the true gradients (autograd)", "float32 drift of the running inverse", "positive definiteness for d > 2")
 
-    def __init__(self, algo, A, d, masked):
+    def __init__(self, algo, A, d, masked, training=True, with_clone=False):
+        self.training, self.with_clone = training, with_clone
         self.algo, self.A, self.d, self.masked = algo, A, d, masked
         self.cls, self.mod = {"UCB": (NeuralUCB, ucb_mod), "TS": (NeuralTS, ts_mod)}[algo]
         self.functions = (self.cls.get_action,)
-        self.name = f"bandit-{algo.lower()}-arms{A}-d{d}-{'mask' if masked else 'nomask'}"
+        self.name = f"bandit-{algo.lower()}-arms{A}-d{d}-{'mask' if masked else 'nomask'}" + ("" if training else "-evalmode") + ("-clone" if with_clone else "")
         self.site = f"Neural{algo}.get_action"
         self.bounds = {"arms": A, "output_layer_parameters": d, "mask": masked,
                        "symbolic": "stored matrix, gradient features, network outputs, gamma, mask" + (", normal samples" if algo == "TS" else "")}
@@ -139,8 +140,16 @@ class BanditStep(Case):
             return t
 
         obs = v.array("ctx", (A, 2))
+        clone = None
+        if self.with_clone:
+            # a clone made BEFORE the decision must not see it (no shared confidence matrix)
+            with patched((agent, "sigma_inv", S0)):
+                try:
+                    clone = agent.clone()
+                except Exception as ex:   # noqa: BLE001
+                    raise HarnessError(f"clone() failed on an agent with a proxy matrix: {type(ex).__name__}: {ex}")
         patches = [(agent, "actor", Actor()), (agent, "exp_layer", ExpLayer()), (agent, "sigma_inv", S0), (agent, "numel", d), (agent, "gamma", gamma),
-                   (agent, "optimizer", Recorder())]
+                   (agent, "optimizer", Recorder()), (agent, "training", self.training)]
         ov = {"normal": normal}
         if v.mode != "real":
             ov["zeros"] = shim_zeros
@@ -181,7 +190,12 @@ class BanditStep(Case):
             per_arm.append(disj(neg(eq(a, k)), eq(1 + quad(k), 0), ident))
         res.append(Ob("stored-matrix-satisfies-S'+S'v(v^T S)=S-for-the-feature-of-the-arm-returned", conj(*per_arm), site=self.site + "/sherman-morrison"))
         res.append(Ob("stored-matrix-stays-symmetric", conj(*[eq(Spost[i][j], Spost[j][i]) for i in range(d) for j in range(i)]), site=self.site + "/sherman-morrison"))
-        res.append(Ob("twin/matrix-unchanged", conj(*[eq(Spost[i][j], Spre[i][j]) for i in range(d) for j in range(d)]), expect="sat"))
+        if d <= 2:        # a witness for the twin is only cheap for small matrices
+            res.append(Ob("twin/matrix-unchanged", conj(*[eq(Spost[i][j], Spre[i][j]) for i in range(d) for j in range(d)]), expect="sat"))
+        if clone is not None:
+            C = clone.sigma_inv
+            res.append(Ob("clone-made-before-the-decision-keeps-the-matrix-it-was-given", tuple(C.shape) == (d, d) and conj(*[eq(val(C, i, j), Spre[i][j]) for i in range(d) for j in range(d)]),
+                          site=self.site + "/clone-shares-the-matrix"))
         return res
 
 
@@ -213,10 +227,12 @@ class BanditInit(Case):
 
 
 def cases(tier):
-    cs = [BanditStep("UCB", 2, 2, False), BanditStep("UCB", 3, 2, True), BanditStep("TS", 2, 2, True), BanditStep("TS", 3, 1, False), BanditStep("UCB", 2, 1, True),
+    cs = [BanditStep("UCB", 2, 2, False), BanditStep("UCB", 3, 1, True), BanditStep("TS", 2, 2, True), BanditStep("TS", 3, 1, False), BanditStep("UCB", 2, 1, True),
+          BanditStep("UCB", 2, 2, False, training=False), BanditStep("TS", 2, 1, True, training=False), BanditStep("UCB", 2, 2, False, with_clone=True),
+          BanditStep("TS", 2, 1, False, with_clone=True),
           BanditInit("UCB"), BanditInit("TS")]
     if tier == "thorough":
-        cs += [BanditStep("UCB", 2, 3, False), BanditStep("TS", 2, 3, True), BanditStep("UCB", 3, 3, True)]
+        cs += [BanditStep("UCB", 2, 3, False), BanditStep("TS", 2, 3, True), BanditStep("UCB", 3, 2, True)]
     return cs
 
 
